@@ -46,6 +46,20 @@ def wrap_closure(fn_src, free):
     return "def outer(fp):\n    fq = fp + 1\n%s\n    return f\n\nf = outer(5)\n" % body
 
 
+# names bound or read at positions the random programs reach only now and then
+DIRECTED = [
+    "def f(p):\n    import os.path\n    return p\n",
+    "def f(p):\n    import os.path\n    return os.path.basename(p)\n",
+    "def f(p):\n    import xml.dom as d, os.path\n    from os import path as q, sep\n    return (d, q)\n",
+    "def f(xs):\n    return sorted(xs, key=lambda v, s=GLOB1: -v * s)\n",
+    "def f(xs):\n    g = lambda v, s=GLOB2: v\n    return [q for q in xs if q > GLOB1]\n",
+    "def f(a):\n    def inner(b=GLOB1, *, c=GLOB2):\n        return b\n    class K(Boom if a else Exception):\n        pass\n    return inner\n",
+    "def f(a, *rest, k=3, **kw):\n    try:\n        R(1)\n    except Boom as e:\n        pass\n    return a\n",
+    "def f(a):\n    for i, (j, k) in []:\n        pass\n    else:\n        z = 1\n    while C(1):\n        y = (w := 2)\n    with CM(2) as u:\n        pass\n    return a\n",
+    "def f(a):\n    b: int\n    c: int = a\n    c += GLOB1\n    O.a = c\n    return H(1, c)\n",
+]
+
+
 def run(chk):
     import ptera
     from ptera.selector import SelectorError
@@ -59,6 +73,7 @@ def run(chk):
         "non-trivial = the symbol is not a parameter")
     stats = {"programs": 0, "names": 0, "fresh": 0}
     n = 80 if chk.tier == "quick" else 2000
+    programs = [(src_, src_, False, set(), "d%d" % k) for k, src_ in enumerate(DIRECTED)]
     for i in range(n):
         gen = pylite.Gen(rng, weights={"global": 0})
         closure = rng.random() < 0.3
@@ -68,6 +83,8 @@ def run(chk):
             fn["body"].insert(rng.randrange(0, len(fn["body"]) + 1), ("assign", [("name", rng.choice(pylite.VARS))], "fp + fq"))
         fsrc = pylite.render(fn)
         src = wrap_closure(fsrc, True) if closure else fsrc
+        programs.append((fsrc, src, closure, pylite.stmt_kinds(fn), i))
+    for fsrc, src, closure, kinds, i in programs:
         full = pylite.HELPERS + "\n" + src
         tab = function_table(full, "f")
         if tab is None:
@@ -76,8 +93,10 @@ def run(chk):
         mod = pyprog.make_module(full, "verif_c10")
         f = mod.f
         stats["programs"] += 1
-        for kd in pylite.stmt_kinds(fn):
+        for kd in kinds:
             chk.dist(kd)
+        if isinstance(i, str):
+            chk.dist("directed")
         for sym in tab.get_symbols():
             name = sym.get_name()
             if sym.is_parameter():
@@ -111,7 +130,7 @@ def run(chk):
                               {"source": src, "name": name, "symtable": want, "ptera": got})
         # names occurring nowhere in f
         present = {s.get_name() for s in tab.get_symbols()} | inner
-        for fresh in ("zz_nowhere", "fresh%d" % i, "A1"):
+        for fresh in ("zz_nowhere", "fresh%s" % i, "A1"):
             if fresh in present:
                 continue
             stats["fresh"] += 1
@@ -131,7 +150,7 @@ def run(chk):
                 chk.violation("oracle", "f > %s refused with %s instead of a selector error" % (fresh, type(e).__name__),
                               {"source": src, "name": fresh})
         pyprog.drop_module(mod)
-        if i % 30 == 0:
+        if isinstance(i, int) and i % 30 == 0:
             chk.sample({"source": src, "symbols": [s.get_name() for s in tab.get_symbols()]})
     # documented refusals
     mod = pyprog.make_module("def f(x):\n    v = x\n    return v\nnotfn = 3\nclass K:\n    pass\n", "verif_c10_b")
